@@ -158,12 +158,12 @@ func executedOutOfDomain(l *h.Log, tx h.TxSpec, eips []int) (bool, string) {
 			}
 			continue
 		}
+		if e.Op >= 0xe0 && e.Op <= 0xe7 {
+			// even when it faults: the fork validates its stack, upstream treats the byte as undefined
+			return true, fmt.Sprintf("journal opcode %#x", e.Op)
+		}
 		if e.Err != "" {
 			continue // the instruction did not execute
-		}
-		switch {
-		case e.Op >= 0xe0 && e.Op <= 0xe7:
-			return true, fmt.Sprintf("journal opcode %#x", e.Op)
 		}
 		n := len(e.Stack)
 		var a common.Address
